@@ -532,6 +532,41 @@ def parsableUnique (first : Value) (ts : List TraitDesc) : Bool :=
     t.rows.map (fun r => (rowText t.ty (r.owner.name == first.name) r.dyn.v, r.owner.name)))
   rows.all (fun r => rows.all (fun r' => !(r.1 == r'.1) || r.2 == r'.2))
 
+/-! ### begin: repeated Parse keys (second job of `validateParsableTraits`; /repo 7793249, 42de8c1, 20f316d)
+
+While it walks the parsable traits (in the order of the list it is given) and their rows, the function also
+records, per enum value and constant value, under which TYPES that constant already is a key of the value's
+`case` in the `Parse` switch, and marks (`repeatsParseKey`) a row whose own written constant - its exact value
+and (default) type - was already walked for the same enum value: `InstanceOf` then leaves that row out of the
+`case` (the same constant twice in one `case` does not compile).  An equal constant of ANOTHER type (`Tint(0)`
+next to `0`) is a different key of a switch on an `any` and is not marked.  In the model the written constant
+of a row is its `dyn` (type name and value), so a row is marked exactly when an earlier walked row of a
+parsable trait has the same owner name and an equal `dyn`.  On the property's domain (pairwise distinct
+parsable constants) no row is marked.  The Parse switch of the model (`traitCaseOne`) consults the same rule in
+closed form, `repeatsParseKey` below (an earlier parsable trait in NAME order - the order of the list
+`validateParsableTraits` is given, `processDuplicates` having sorted it - has a row with the same owner name and
+an equal `dyn`); `repeatMarks` is the walk the translated code is tied to. -/
+
+/-- the rows of one parsable trait walked after the (owner name, constant) pairs `seen`: which rows are marked,
+and the pairs walked afterwards -/
+def markRows : List (String × Dyn) → List TraitRow → List Bool × List (String × Dyn)
+  | seen, [] => ([], seen)
+  | seen, r :: rs =>
+    let rest := markRows (seen ++ [(r.owner.name, r.dyn)]) rs
+    (seen.contains (r.owner.name, r.dyn) :: rest.1, rest.2)
+
+/-- `repeatsParseKey` of every row of every trait, in the order `validateParsableTraits` walks them -/
+def repeatMarksFrom : List (String × Dyn) → List TraitDesc → List (List Bool)
+  | _, [] => []
+  | seen, t :: ts =>
+    if t.parsable then
+      (markRows seen t.rows).1 :: repeatMarksFrom (markRows seen t.rows).2 ts
+    else t.rows.map (fun _ => false) :: repeatMarksFrom seen ts
+
+def repeatMarks (ts : List TraitDesc) : List (List Bool) := repeatMarksFrom [] ts
+
+/-! ### end: repeated Parse keys -/
+
 /-- insertion sort of the trait descriptions by name (`sort.Sort(traits)`; names are distinct) -/
 def insertTrait (t : TraitDesc) : List TraitDesc → List TraitDesc
   | [] => [t]
